@@ -338,6 +338,19 @@ func c17Run(cfg c17Cfg) string {
 	var zero int
 	var text string
 	note(sc.ReadComment(&zero, &text)) // computes the writing state on the client's thread while blocks are processed
+	// fire-and-forget labels (WaitForError false: the RPC returns at once and the core loop applies the label later),
+	// each followed at once by a burst of requests that compute the writing state on the client's own goroutine
+	nlab := 1
+	if cfg.kind == "race" {
+		nlab = 3
+	}
+	for i := 0; i < nlab; i++ {
+		note(sc.SetExperimentStateLabel(&dastard.StateLabelConfig{Label: fmt.Sprintf("P%d", i)}, &ok))
+		for j := 0; j < 8; j++ {
+			note(sc.ReadComment(&zero, &text))
+		}
+		time.Sleep(40 * time.Millisecond)
+	}
 	if cfg.quiet > 0 {
 		// no request for a while: the status thread saves the configuration 2 s after the last change of a saved setting,
 		// while the core loop keeps sending TRIGGERRATE / NUMBERWRITTEN messages and the heartbeat goroutine ALIVE
